@@ -18,7 +18,7 @@ BUILTIN = {0: "ADD", 1: "AVERAGE_POOL_2D", 2: "CONCATENATION", 3: "CONV_2D", 4: 
            43: "SQUEEZE", 45: "STRIDED_SLICE", 49: "SPLIT", 55: "MAXIMUM", 57: "MINIMUM", 65: "SLICE", 67: "TRANSPOSE_CONV",
            70: "EXPAND_DIMS", 97: "RESIZE_NEAREST_NEIGHBOR", 98: "LEAKY_RELU", 101: "ABS", 114: "QUANTIZE", 117: "HARD_SWISH",
            39: "TRANSPOSE", 83: "PACK", 88: "UNPACK", 102: "SPLIT_V", 47: "EXP", 56: "ARG_MAX", 59: "NEG", 76: "RSQRT",
-           75: "SQRT", 73: "LOG", 99: "SQUARED_DIFFERENCE", 66: "SIN", 53: "CAST", 42: "DIV", 90: "FLOOR_DIV", 105: "REVERSE_V2", 8: "FLOOR", 108: "COS"}
+           75: "SQRT", 73: "LOG", 99: "SQUARED_DIFFERENCE", 54: "PRELU", 66: "SIN", 53: "CAST", 42: "DIV", 90: "FLOOR_DIV", 105: "REVERSE_V2", 8: "FLOOR", 108: "COS"}
 DT = {"int8": "i8", "uint8": "u8", "int16": "i16", "int32": "i32", "int64": "i64"}
 QRANGE = {"int8": (-128, 127), "uint8": (0, 255), "int16": (-32768, 32767)}
 
@@ -359,6 +359,15 @@ def op_text(model, sg, op, kind):
         if any(qparams(T[i]) != qparams(T[ins[0]]) for i in outs):
             raise NotSimulated("UNPACK:quantisation_differs")
         g = [[ax + rank if ax < 0 else ax, opt(op, 0, "i", 0)]]
+    elif kind == "PRELU":
+        si, _ = one_scale(T[ins[0]], kind)
+        sa, _ = one_scale(T[ins[1]], kind)
+        so, _ = one_scale(T[outs[0]], kind)
+        if T[ins[0]]["type"] not in ("int8", "uint8") or any(T[i]["type"] != T[ins[0]]["type"] for i in (ins[1], outs[0])):
+            raise NotSimulated(f"PRELU:{T[ins[0]]['type']}")
+        m1, s1 = quantize_multiplier(np.float64(f32(si / so)))
+        m2, s2 = quantize_multiplier(np.float64(f32(f32(si * sa) / so)))
+        g = [[m1, s1, m2, s2]]
     elif kind == "ABS":
         si, _ = one_scale(T[ins[0]], kind)
         so, _ = one_scale(T[outs[0]], kind)
